@@ -80,6 +80,7 @@ type Specs struct {
 	GhostFuncs map[string]*GhostFunc
 	GhostOrder []string
 	Axioms     []*Axiom
+	Private     map[string]string           // regions no unknown callee can write (assumed; with reason)
 	GlobalFacts []*Axiom                    // facts about immutable package variables, assumed at every function entry
 	Aliases    map[string]map[string]string // package path → alias → import path
 	EffectFree []*regexp.Regexp // name patterns of functions treated as effect-free with havocked results
@@ -87,7 +88,7 @@ type Specs struct {
 }
 
 func newSpecs() *Specs {
-	return &Specs{Funcs: map[string]*FuncSpec{}, GhostVars: map[string]*GhostVar{}, GhostFuncs: map[string]*GhostFunc{}, Aliases: map[string]map[string]string{}}
+	return &Specs{Funcs: map[string]*FuncSpec{}, GhostVars: map[string]*GhostVar{}, GhostFuncs: map[string]*GhostFunc{}, Aliases: map[string]map[string]string{}, Private: map[string]string{}}
 }
 
 var labelRe = regexp.MustCompile(`^#([A-Za-z0-9_.\-]+)\s*(\[[A-Z0-9, ]+\])?\s*:\s*`)
@@ -361,6 +362,14 @@ func (sp *Specs) parseFile(f *ast.File, fset *token.FileSet, pkgPath string) {
 				sp.Aliases[pkgPath] = map[string]string{}
 			}
 			sp.Aliases[pkgPath][fs[0]] = strings.ReplaceAll(fs[1], "@/", modulePath+"/")
+		case "private":
+			cur = nil
+			fs := strings.SplitN(rest, " ", 2)
+			reason := ""
+			if len(fs) == 2 {
+				reason = strings.Trim(strings.TrimSpace(fs[1]), "\"")
+			}
+			sp.Private[fs[0]] = reason
 		case "globalfact":
 			cur = nil
 			c := parseClause(rest, l.file, l.line, fmt.Sprintf("globalfact%d", len(sp.GlobalFacts)))
